@@ -32,6 +32,7 @@ import EPV.Gen.GudJump
 import EPV.Gen.GudG
 import EPV.Spec.Euler1D
 import EPV.Tactics
+import EPV.Lemmas.Bridge.SemiGud
 
 set_option linter.all false
 
@@ -111,6 +112,7 @@ def position (i : Inp) (a : Atoms) : Field := fun r t => GudRun.position (runPfu
 /-- the driver's similarity coordinate:  x = (t / 0.750024322 - 1) / r^λ -/
 theorem xi_eq (i : Inp) (a : Atoms) (r t : ℝ) : xi i a r t = (t / fC - 1) / r ^ a.lam := by
   simp only [xi, xP, runP, fC, epv_tree, epv_leaf]
+  epv_semi_gud_eq
 
 /-- the record `state` is evaluated on: every parameter is handed through unchanged, in the right slot -/
 theorem stP_eq (i : Inp) (a : Atoms) (r t : ℝ) :
@@ -149,15 +151,17 @@ theorem state_behind (p : GudState.P) (hx : ¬ p.targetx < -1) :
     ∧ GudState.specific_internal_energy p
         = (p.C * p.r ^ (1 - p.lambda_d) / (p.targetx * (-1) * p.lambda_d)) ^ 2 / (p.gamma_d * (1 / p.rho0) * (1 / p.R))
             / ((p.gamma_d - 1) * p.rho0 * p.R) := by
-  simp only [epv_tree]
-  split_ifs <;> first | (exfalso; simp only [epv_cond] at *; linarith) | (simp only [epv_leaf, and_self])
+  exact ⟨Bridge.SemiGud.state_density_behind p hx, Bridge.SemiGud.state_velocity_behind p hx,
+    Bridge.SemiGud.state_sound_speed_behind p hx, Bridge.SemiGud.state_pressure_behind p hx,
+    Bridge.SemiGud.state_sie_behind p hx⟩
 
 /-- ahead of the converging shock (x < -1): the undisturbed gas -/
 theorem state_ahead (p : GudState.P) (hx : p.targetx < -1) :
     GudState.density p = p.rho0 ∧ GudState.velocity p = 0 ∧ GudState.sound_speed p = 0
     ∧ GudState.pressure p = 0 ∧ GudState.specific_internal_energy p = 0 := by
-  have h0 : GudState.c0 p := hx
-  simp only [epv_tree, h0, if_true, epv_leaf, and_self]
+  exact ⟨Bridge.SemiGud.state_density_ahead p hx, Bridge.SemiGud.state_velocity_ahead p hx,
+    Bridge.SemiGud.state_sound_speed_ahead p hx, Bridge.SemiGud.state_pressure_ahead p hx,
+    Bridge.SemiGud.state_sie_ahead p hx⟩
 
 
 /-! ### The assembled fields on either side of the converging shock -/
@@ -201,8 +205,8 @@ theorem jump_form (p : GudJump.P) (hC : p.Cb ≠ 0) :
     ∧ GudJump.C1 p ^ 2 = Real.sqrt (p.Cb ^ 2 + 1 / 2 * (p.gamma_d - 1) * ((1 + p.Vb) ^ 2 - (1 + GudJump.V1 p) ^ 2)) ^ 2 := by
   simp only [epv_tree]
   split_ifs with h0 h1
-  · simp only [epv_leaf]; refine ⟨?_, ?_, ?_⟩ <;> first | trivial | rfl | ring
-  · simp only [epv_leaf]; refine ⟨?_, ?_, ?_⟩ <;> first | trivial | rfl | ring
+  · simp only [epv_leaf]; epv_semi_gud_conj
+  · simp only [epv_leaf]; epv_semi_gud_conj
   · exfalso
     simp only [epv_cond] at h0 h1
     exact hC (le_antisymm (not_lt.mp h0) (not_lt.mp h1))
@@ -213,7 +217,7 @@ theorem start_form (p : GudJump.P) :
     ∧ GudJump.Cs p = Real.sqrt (2 * p.gamma_d * (p.gamma_d - 1)) / (p.gamma_d + 1)
     ∧ GudJump.Rs p = (p.gamma_d + 1) / (p.gamma_d - 1) := by
   simp only [epv_tree]
-  split_ifs <;> (simp only [epv_leaf]; refine ⟨?_, ?_, ?_⟩ <;> first | trivial | rfl)
+  split_ifs <;> (simp only [epv_leaf]; epv_semi_gud_conj)
 
 /-! ### Lazarus time -/
 
